@@ -5,6 +5,8 @@ pysched (stateless, preemption-bounded exploration of the real threads):
       populate_fd_queue thread and a consumer that uses the real read paths in the pattern
       CommandPipeline.iterraw / _read_all use (timed readlines while the producer lives, then the
       blocking drain), over real pipes.
+  T0  PipeChannel fd ownership: concurrent closers of one channel followed by the next capture pipe
+      (xv/c06_t0.py).
   T2  whole capture path with callable-alias stages: the real subproc_captured_stdout /
       subproc_captured_object / pipelines (`$(A)`, `!(A)`, `A | B`) with threaded aliases writing
       scripted chunks - ProcProxyThread, CommandPipeline, readers all run for real under the
@@ -170,6 +172,9 @@ def run(ctx):
         total["capped"] = total["capped"] or st.capped
         per["/".join(case)] = st.executions
     ctx.log(f"T1 reader core: {len(cases)} harnesses, {total['executions']} schedules, {total['steps']} steps, bound {bound}")
+    from . import c06_t0
+
+    t0 = c06_t0.run_part(ctx)
     t2 = None
     try:
         from . import c06_t2
@@ -190,13 +195,14 @@ def run(ctx):
     ctx.log(f"sizes (free-running, real children): {sz['cases']} cases x {c06_sizes.REPS} repetitions, sizes {sz['sizes']}")
     ctx.sample({"tier": "T1", "chunks": "two", "consumer": "iterraw", "threads": ["consumer(main)", "writer", "populate_fd_queue"], "preemption_bound": bound})
     ctx.coverage.update(
-        states=len(total["sigs"]) + (t2["states"] if t2 else 0) + (t3["states"] if t3 else 0),
-        transitions=total["steps"] + (t2["transitions"] if t2 else 0) + (t3["transitions"] if t3 else 0),
-        traces_validated_against_impl=total["executions"] + (t2["executions"] if t2 else 0) + (t3["executions"] if t3 else 0),
+        t0=t0["summary"],
+        states=len(total["sigs"]) + t0["states"] + (t2["states"] if t2 else 0) + (t3["states"] if t3 else 0),
+        transitions=total["steps"] + t0["transitions"] + (t2["transitions"] if t2 else 0) + (t3["transitions"] if t3 else 0),
+        traces_validated_against_impl=total["executions"] + t0["executions"] + (t2["executions"] if t2 else 0) + (t3["executions"] if t3 else 0),
         t3=t3["summary"] if t3 else "not run",
         sizes_free_running={"cases": sz["cases"], "executions": sz["executions"], "sizes": sz["sizes"], "timing_dependent_wrong_returncodes_seen": sz["timing_dependent_wrong_returncodes_seen"], "note": "exhaustive over sizes/kinds/shapes, NOT over schedules"},
         preemption_bound=bound,
-        exhaustive=total["capped"] is None and (t2["exhaustive"] if t2 else True) and (t3["exhaustive"] if t3 else True),
+        exhaustive=total["capped"] is None and t0["exhaustive"] and (t2["exhaustive"] if t2 else True) and (t3["exhaustive"] if t3 else True),
         caps_hit=total["capped"],
         t1_schedules=per,
         t2=t2["summary"] if t2 else "not run",
@@ -208,6 +214,10 @@ def run(ctx):
 def replay(rec):
     global _CASE
     c = rec["case"]
+    if c.get("tier") == "T0":
+        from . import c06_t0
+
+        return c06_t0.replay(rec)
     if c.get("tier") == "T2":
         from . import c06_t2
 
